@@ -111,7 +111,14 @@ func VerifC20Sign() {
 	sig := verifNondetBytes("sig", 2)
 	resp := &kmspb.AsymmetricSignResponse{Signature: sig, VerifiedDigestCrc32C: verifNondetBool("verified_digest"), VerifiedDataCrc32C: verifNondetBool("verified_data")}
 	if verifNondetBool("has_sig_crc") {
-		resp.SignatureCrc32C = wrapperspb.Int64(int64(verifNondetU64("sig_crc")))
+		// either the checksum of the signature or any other value (built from the checksum function
+		// itself so that a native replay, where CRC-32C is the real one, follows the same path)
+		c := verifCRC(sig)
+		if !verifNondetBool("sig_crc_matches") {
+			c = int64(verifNondetU64("sig_crc"))
+			verifAssume(c != verifCRC(sig), "a checksum that does not match is some other value")
+		}
+		resp.SignatureCrc32C = wrapperspb.Int64(c)
 	}
 	svc.signResp = resp
 	s := &Signer{Manager: &Manager{KeyClient: svc}}
